@@ -11,7 +11,7 @@ implementation side of this differential is rustc.  On every run
      violation whose replay is the probe.
 Query language (header -> case): send T | sync T  -> (20 1 0|1 type) ; outlive N -> (20 2 N) ;
 conflict N -> (20 3 N) ; sealed parent trait module supertrait -> (20 4 ..) ; safe-impl Tr ->
-(20 5 Tr) ; unsafe-impl Tr -> (20 6 Tr) ; valid -> (20 7) ; supertrait Tr Super -> (20 8 Tr Super) ; sealed-rhs .. -> (20 9 ..).  Names are module-qualified as in
+(20 5 Tr) ; unsafe-impl Tr -> (20 6 Tr) ; valid -> (20 7) ; supertrait Tr Super -> (20 8 Tr Super) ; sealed-rhs .. -> (20 9 ..) ; sealed-open .. -> (20 10 ..).  Names are module-qualified as in
 Gen/Types.v and travel as lists of character codes.  Types: f64, Cell (=Cell<f64>), Rc (=Rc<f64>),
 &T, &mut T, Vec<T>, RefCell<T>, (A, B), Name<args> (const and lifetime arguments omitted)."""
 import glob, hashlib, json, os, re, subprocess, time
@@ -137,6 +137,9 @@ def query_case(q, names):
     if kind == "sealed-rhs":
         p, t, m, s = rest.split()
         return sx([20, 9, codes(p), codes(t), codes(m), codes(s)])
+    if kind == "sealed-open":
+        p, t, m, s = rest.split()
+        return sx([20, 10, codes(p), codes(t), codes(m), codes(s)])
     if kind == "safe-impl":
         return sx([20, 5, codes(qualify(rest.strip(), traits))])
     if kind == "unsafe-impl":
